@@ -16,7 +16,11 @@ let parse_blocks (s : string) : vblock list =
         match String.split_on_char '|' t with
         | key :: strs -> { vt_key = unwhex key; vt_strings = List.map (fun x -> let (k, v) = split2 ':' x in { vs_key = unwhex k; vs_value = unwhex v }) strs }
         | [] -> failwith "table") items)
-    | "V/" -> BVars (List.map (fun x -> let (k, v) = split2 ':' x in (unwhex k, unwhex v)) items)
+    | "V/" -> BVars (List.map (fun x ->
+        match String.split_on_char ':' x with
+        | [k; v] -> { vv_key = unwhex k; vv_value = unwhex v; vv_odd = None }
+        | [k; v; b] -> { vv_key = unwhex k; vv_value = unwhex v; vv_odd = (match unwhex b with [w] -> Some w | _ -> failwith "odd") }
+        | _ -> failwith "var") items)
     | _ -> let (k, c) = split2 ':' rest in BOther (unwhex k, unwhex c)) (split_on ',' s)
 
 let show_fixed = function Some f -> whex f | None -> "n"
